@@ -54,7 +54,8 @@ def gen_cases(chk):
 
 
 ENVS = [("fill55", {"MALLOC_PERTURB_": "85"}, []), ("fillAA", {"MALLOC_PERTURB_": "170"}, []),
-        ("fill01-noaslr", {"MALLOC_PERTURB_": "1"}, ["setarch", "x86_64", "-R"]), ("fillFF-arena", {"MALLOC_PERTURB_": "255", "MALLOC_ARENA_MAX": "1", "MALLOC_TOP_PAD_": "1048576"}, [])]
+        ("fill01-noaslr", {"MALLOC_PERTURB_": "1"}, ["setarch", "x86_64", "-R"]), ("fillFF-arena", {"MALLOC_PERTURB_": "255", "MALLOC_ARENA_MAX": "1", "MALLOC_TOP_PAD_": "1048576"}, []),
+        ("stale-1", {"SZV_HEAP_PRIME": "1"}, []), ("stale-4", {"SZV_HEAP_PRIME": "4"}, []), ("stale-8", {"SZV_HEAP_PRIME": "8"}, [])]
 
 
 def run_env(exe, cases, env, prefix):
@@ -96,7 +97,7 @@ def run(chk):
                               {"case": c, "env_a": ENVS[0][1], "env_b": ENVS[j][1], "out_a": outs[0][i][:200], "out_b": outs[j][i][:200], "variant": "plain"})
     chk.cov["traces_validated_against_impl"] = len(cases)
     chk.cov["rule"] = ("each (array, arguments, configuration) triple is compressed and decompressed in four fresh processes with different heap fill "
-                       "patterns (MALLOC_PERTURB_ 85/170/1/255), with and without address-space randomisation, one and many arenas; stream size, stream "
+                       "patterns (MALLOC_PERTURB_ 85/170/1/255) or freed blocks holding the stale words 1/4/8, with and without address-space randomisation, one and many arenas; stream size, stream "
                        "digest and reconstruction digest must be identical; all ten element types, ranks 1..4, SZ-1.4 and regression kernels, PW_REL, "
                        "fixed intervals, both back ends, constant / lossless / tiny-bypass streams")
     chk.cov["input_distribution"] = {"cases": len(cases), "environments": [e[0] for e in ENVS]}
